@@ -80,6 +80,7 @@ var Vocabulary = []string{
 	"1e400", "['a','b']", "[?(@.a)]", "[?(@.a == 1)]", "@.a", "$.a", "..a", ".a",
 	".F1()", ".G1()", ".Fre()", "%", "%s", "%d", "%!", "%%", "%v", "100%", "[(@.length)]", "[(@.length-1)]", "(@.length", "@.length", "[(", ")]", "[-0]", "[-0:]", "[:-0]", "-0", "-00",
 	".count()", ".sum()", ".avg()", ".min()", ".max()", ".median()", ".length()", ".len()", ".size()", ".keys()", ".values()", ".first()", ".last()", ".type()", ".match()", ".value()",
+	"0x1p4", "0X1P-2", "-0x.8p5", "0x1.8p+3", "0x10", "0x", "0x1p", "1_0", "0x1_0p0", "0b1", "0o7", "1e", "1.e1", "1E2", "1e+", "0Inf", "1NaN",
 	"=~/^/", "=~/$/", "=~//", "=~ / /", "\\ud834'", "\\udd1e\"", "\\\"", "\\\\'", "‘", "’", "“", "”", "\u00a0", "\u3000", "\ufeff",
 }
 
